@@ -4,6 +4,7 @@
 //! writes what happened as NDJSON, which the TLA+ trace specifications under /verif/spec consume.
 //! It contains *no oracle*: every judgement is made by TLC on the specification.
 
+mod ct;
 mod lex;
 mod lr;
 mod nlc;
@@ -27,6 +28,7 @@ fn main() {
         "lr-child" => lr::child_main(),
         "nlc" => nlc::main(&args[2..]),
         "lex" => lex::main(&args[2..]),
+        "ctstep" => ct::main(&args[2..]),
         "width" => width::main(&args[2..]),
         x => {
             eprintln!("unknown subcommand {}", x);
